@@ -268,6 +268,43 @@ def body_item(arg):
     return acc
 
 
+def census_item(arg):
+    """Every media file of every stream of the world, asked for the ordinary way: init, every stored segment by number
+    and by time, the one past the end, static and live, with and without DRM. Nothing hostile in the request - what
+    varies is the kind of stored media (track ids, IV sizes, sub-samples, key sets, missing tfdt, default durations ...)."""
+    stream = arg
+    w = W.World.shared(extras=True)
+    w.begin_item()
+    acc = core.Acc()
+    W.set_now(NOW)
+    with w.appctx():
+        st = w.models.Stream.get(directory=stream)
+        files = []
+        if st is not None:
+            for mf in st.media_files:
+                rep = mf.representation
+                files.append((mf.name, mf.content_type, rep.num_media_segments if rep else 0, bool(rep and rep.encrypted),
+                              rep.segments[1].duration if rep and len(rep.segments) > 1 else 0))
+        w.models.db.session.remove()
+    ext = {'video': 'm4v', 'audio': 'm4a', 'text': 'mp4'}
+    for name, ctype, nseg, enc, dur in files:
+        e = ext.get(ctype, 'mp4')
+        for drm in ((None, 'all', 'playready', 'clearkey-moov') if enc else (None, 'all')):
+            q = crawl.make_query({'drm': drm} if drm else {})
+            urls = [f'/dash/{mode}/{stream}/{name}/init.{e}{q}' for mode in ('vod', 'live')]
+            urls += [f'/dash/vod/{stream}/{name}/{n}.{e}{q}' for n in range(1, nseg + 2)]
+            urls += [f'/dash/vod/{stream}/{name}/time/{k * dur}.{e}{q}' for k in range(0, min(nseg, 3))]
+            urls += [f'/dash/odvod/{stream}/{name}.{e}{q}']
+            lq = crawl.make_query(dict({'drm': drm} if drm else {}, start='2024-03-01T11:00:00Z', depth='60'))
+            urls += [f'/dash/live/{stream}/{name}/{n}.{e}{lq}' for n in (880, 890, 899)]
+            for url in urls:
+                hd = {'Range': 'bytes=0-99'} if '/odvod/' in url else None
+                r = w.get(url, headers=hd)
+                acc.state((url,))
+                judge(acc, 'media', url, hd, r, {'kind': 'hostile', 'rkind': 'media', 'url': url, 'option': 'census', 'headers': hd})
+    return acc
+
+
 def mgmt_item(arg):
     """Well-formed but conflicting management requests: the operation alphabet of C17, every ordered pair, issued by
     the media user; the answer of the request itself must not be a 5xx."""
@@ -384,6 +421,8 @@ def _dispatch(item):
         return header_item(arg)
     if kind == 'body':
         return body_item(arg)
+    if kind == 'census':
+        return census_item(arg)
     if kind.startswith('mp4'):
         from props import c16_mp4
         return c16_mp4.dispatch(kind, arg)
@@ -419,6 +458,11 @@ def run(ctx):
     for ch in core.chunks(routes if not ctx.quick else routes[::3], 6):
         items.append(('header', (ch, ctx.tier)))
     items.append(('body', ctx.tier))
+    with w0.appctx():
+        names = sorted(s_.directory for s_ in w0.models.Stream.all())
+        w0.models.db.session.remove()
+    for nm_ in names:
+        items.append(('census', nm_))
     for stream in ('bbb', 'tears'):
         for addressing in ('number', 'time'):
             ks = list(range(8, 47)) if not ctx.quick else list(range(8, 47, 3)) + [9, 12, 16]
@@ -453,8 +497,8 @@ def replay(record):
     acc = core.Acc()
     W.set_now(NOW)
     if k == 'hostile':
-        r = w.get(record['url'])
-        judge(acc, record['rkind'], record['url'], None, r, record)
+        r = w.get(record['url'], headers=record.get('headers'))
+        judge(acc, record['rkind'], record['url'], record.get('headers'), r, record)
     elif k == 'header':
         r = w.request(record['method'], record['url'], headers=record['headers'])
         judge(acc, record['rkind'], f"{record['method']} {record['url']}", record['headers'], r, record)
